@@ -798,6 +798,35 @@ def fam_conc(rng, tier="quick"):
     return out
 
 
+def fam_oddnode(rng, cfg=CFG_A):
+    """C02/C01/C11: the node answers the mempool query of a breach with something unexpected (an undocumented error code, a
+    result that is not a transaction): that is no statement that the node has the penalty - it must still be submitted."""
+    out = []
+    for n, odd in enumerate(([None], [-1], [-32603], [None, -8])):
+        f = {"op": "fault", "kind": "get_odd", "replies": odd}
+        ops = [reg(1), reg(2), add(1, 1, valid(1)), add(2, 1, valid(1, 6)), f, mine([D(1)]), get(1, 1), get(2, 1), sub(1), sub(2),
+               mine([D(2)]), f, add(1, 2, valid(2)), get(1, 2), sub(1), mine([P(1), P(2)]), get(1, 1), get(1, 2)]
+        out.append(scen("oddnode-%d" % n, cfg, ops))
+    return out
+
+
+def fam_staleboot(rng, cfgs=(CFG_B, CFG_D)):
+    """C09/C02: the tower restarts at a height at which a stored user is already outdated (its last poll recorded the node's
+    tip although the blocks could not be downloaded - known finding F-C03-2 - and the tower was then restarted).  The user
+    is purged by the next block it processes, nothing is ever sent for the purged owner, other users stay."""
+    out = []
+    for cfg in cfgs:
+        dur, grace = cfg["D"], cfg["G"]
+        for extra in (0, 1, 3):
+            k = dur + grace + extra          # blocks mined before the failing poll: the tip is at/after expiry + grace of user 1
+            ops = [reg(1), add(1, 1, valid(1)), add(1, 2, valid(2))]
+            ops += [mine([], poll=False) for _ in range(k)]
+            ops += [{"op": "fault", "kind": "block", "offset": k - 1, "times": 1, "transient": False}, POLL, {"op": "restart"}, POLL]
+            ops += [reg(2), add(2, 1, valid(1, 6)), sub(1), get(1, 1), mine([D(1)]), get(1, 1), get(2, 1), sub(1), sub(2), mine([D(2)]), sub(1), sub(2)]
+            out.append(scen("staleboot-S%dD%dG%d-%d" % (cfg["S"], dur, grace, extra), cfg, ops))
+    return out
+
+
 def fam_overloaded(rng, cfg=CFG_A, ms=14000):
     """C01/C12: bitcoind answers one RPC with a bare HTTP 503 (no verdict about the transaction) while a breach is being
     handled: the submission must be retried, never treated as a rejection."""
